@@ -310,3 +310,7 @@ def gen_ops(rng, tier, ctx=None):
 
 def nontrivial(line):
     return line if "," in line else None
+
+
+# source pins: the C files the Lean model cites (see tools/pins.py)
+PINS = [('fft/mul_fft_main.c', None), ('fft/mul_mfa_trunc_sqrt2.c', None), ('fft/mul_trunc_sqrt2.c', None), ('mpn/generic/mul.c', None), ('mpn/generic/mul_basecase.c', None), ('mpn/generic/mul_n.c', None), ('mpn/generic/toom3_mul.c', None), ('mpn/generic/toom3_mul_n.c', None), ('mpn/generic/toom4_mul.c', None), ('mpn/generic/toom4_mul_n.c', None), ('mpn/generic/toom8h_mul.c', None)]
